@@ -881,7 +881,18 @@ func (r *wireRun) capability(single int) {
 			masks = append(masks, map[string]interface{}{"typ": c.typ, "len": len(c.b) - 2, "caps": caps})
 		}
 	}
-	f := map[string]interface{}{"masks": masks}
+	// what was put in, independent of what the writer chose to put on the wire: a type with a capability set
+	// must come back with exactly that set (seeded change C06-r: a type whose only capability is its
+	// highest-numbered one was left off the wire, and the expectation used to be derived from the written chunks)
+	want := []map[string]interface{}{}
+	for t := 1; t <= 2; t++ {
+		if len(sets[t]) > 0 {
+			caps := append([]int{}, sets[t]...)
+			sort.Ints(caps)
+			want = append(want, map[string]interface{}{"typ": t, "caps": caps})
+		}
+	}
+	f := map[string]interface{}{"masks": masks, "sets": want}
 	ev := Ev{"ev": "Pkg", "kind": "CAPABILITY", "f": f, "w": wst, "wbytes": ints(norm), "h": false, "hbytes": []int{}, "r": "none", "rf": f, "consumed": 0, "lenok": lenOK}
 	if wst == "ok" {
 		back, _ := tds.LookupPackage(tds.TDS_CAPABILITY)
@@ -905,7 +916,24 @@ func (r *wireRun) capability(single int) {
 				}
 				rm = append(rm, map[string]interface{}{"typ": t, "len": m["len"], "caps": caps})
 			}
-			ev["rf"] = map[string]interface{}{"masks": rm}
+			got := []map[string]interface{}{}
+			for t := 1; t <= 2; t++ {
+				caps := []int{}
+				for c := 0; c <= maxes[t]; c++ {
+					has := false
+					func() {
+						defer func() { recover() }()
+						has = cp.HasCapability(tds.CapabilityType(t), c)
+					}()
+					if has {
+						caps = append(caps, c)
+					}
+				}
+				if len(caps) > 0 {
+					got = append(got, map[string]interface{}{"typ": t, "caps": caps})
+				}
+			}
+			ev["rf"] = map[string]interface{}{"masks": rm, "sets": got}
 		}
 	}
 	r.tr.Emit(ev)
